@@ -61,7 +61,7 @@ func unicodePrograms(r *rand.Rand, quick bool) []*tprog {
 	var out []*tprog
 	per := 5
 	if quick {
-		per = 8
+		per = 10
 	}
 	for i := 0; i < len(unicodeFns); i += per {
 		j := i + per
